@@ -736,3 +736,19 @@ benign_patch('ben33-r5', ALL)
 benign_patch('ben33-r4', ALL)                                   # RRT*: let-else gates, enumerate().skip(1) nearest, fold choose-parent, filter in the rewire loop header
 CASES.append({'name': 'c20-print-exits-reintroduced', 'props': ['C20'], 'expect': ['C20.exit'],
               'edits': [('oxmpl-py/src/base/goal.rs', 'e.display(py);', 'e.print(py);')]})
+
+# ---------------------------------------------------------------- round 14
+seeded('seeded-REC01-one-root-per-start-any-valid', ['C01', 'C02'], ['C01.gate'])
+seeded('seeded-REC03-deadline-break-in-motion-check', ['C03', 'C01', 'C07'], ['C01.kernel'])
+seeded('seeded-REC04-goal-tree-never-cleared', ['C04', 'C02', 'C01'], ['C02.reroot'])
+seeded('seeded-REC07-hashset-goal-fast-path', ['C07', 'C18'], ['C07.source'])
+seeded('seeded-REC08-generator-taken-above-the-gate', ['C08', 'C07'], ['C07.restore'])
+seeded('seeded-REC09-rescale-by-signed-maximum', ['C09'], ['C09.range'])
+seeded('seeded-REC10-interpolate-ends-with-enforce-bounds', ['C10'], ['C10.ends'])
+seeded('seeded-REC13-se3-bounds-check-translation-only', ['C13'], ['C13.match'])
+seeded('seeded-REC14-prepared-uniform-distributions', ['C14', 'C11'], ['C14.draw'])
+seeded('seeded-REC15-deadline-break-in-connect-motion-check', ['C15', 'C01', 'C07'], ['C01.kernel'])
+for _k in (1, 2, 3, 4, 5):
+    benign_patch('ben36-r%d' % _k, ALL)                         # arithmetic core of the spaces: wrap_angle / angular_gap helpers, dot / norm / zip_with, project_into_cone -> Option, assert_dimension + zip, weighted_norm fold
+    benign_patch('ben37-r%d' % _k, ALL)                         # RRT-Connect / RRT*: nearest_node fold + steer, enum Side + join_paths, shared is_motion_valid / trace_back, filter_map neighbours, choose_parent / rewire helpers
+    benign_patch('ben38-r%d' % _k, ['C19', 'C20', 'C08'])       # bindings: generic query helper, JS method() helper + let-else, match on (planner, pd), with_planner! macro, generic ask<T>
